@@ -115,6 +115,44 @@ fn braided_corridors(tier: Tier) -> Vec<Net> {
     out
 }
 
+/// a trunk edge 0 -> 1 of length 1 / 30 / 1000, then from 1 to the destination a direct edge and one or two detours of 2-4 short
+/// edges: alternatives that differ much in their number of edges and still share most of their length (or almost none of it)
+fn trunk_nets() -> Vec<Net> {
+    let mut out = vec![];
+    for trunk in [1.0, 30.0, 1000.0] {
+        for d1 in 2..=4usize {
+            for d2 in [0usize, 2, 3] {
+                for direct in [1.0, 6.0] {
+                    // vertices: 0, 1, detour interiors..., destination last
+                    let mut edges = vec![(0usize, 1usize, trunk)];
+                    let inner = (d1 - 1) + if d2 > 0 { d2 - 1 } else { 0 };
+                    let dest = 2 + inner;
+                    edges.push((1, dest, direct));
+                    let mut next_v = 2;
+                    for (di, d) in [d1, d2].iter().enumerate() {
+                        if *d == 0 {
+                            continue;
+                        }
+                        let mut at = 1usize;
+                        for step in 0..*d {
+                            let to = if step + 1 == *d {
+                                dest
+                            } else {
+                                next_v += 1;
+                                next_v - 1
+                            };
+                            edges.push((at, to, 1.1 + di as f64 * 0.3 + step as f64 * 0.01));
+                            at = to;
+                        }
+                    }
+                    out.push(Net { n: dest + 1, edges, xy: None });
+                }
+            }
+        }
+    }
+    out
+}
+
 struct Space {
     nets: Vec<Net>,
     algos: Vec<(Algo, Option<usize>)>,
@@ -122,6 +160,9 @@ struct Space {
     /// one-way cycle beside the least-cost route, which a via route can run around
     extra_nets: Vec<Net>,
     extra_algos: Vec<(Algo, Option<usize>)>,
+    /// a third family with its own configuration list (single-via): a long shared trunk, see trunk_nets
+    trunk_nets: Vec<Net>,
+    trunk_algos: Vec<(Algo, Option<usize>)>,
 }
 impl Space {
     fn new(yens: bool, tier: Tier) -> Space {
@@ -147,15 +188,35 @@ impl Space {
         } else {
             (vec![], vec![])
         };
-        Space { nets: nets(&specs(yens, tier)), algos: ksp_algos(yens, tier), extra_nets, extra_algos }
+        let (trunk_nets, trunk_algos) = if yens {
+            (vec![], vec![])
+        } else {
+            let mut a = vec![];
+            for k in [2usize, 3] {
+                for under in [Algo::Dijkstra, Algo::AStar(Some(1.0))] {
+                    for sim in [Sim::DistCos(0.7), Sim::DistCos(0.5), Sim::EdgeCos(0.7)] {
+                        a.push((Algo::SingleVia { k, under: Box::new(under.clone()), sim: Some(sim), term: None }, None));
+                    }
+                }
+            }
+            (trunk_nets(), a)
+        };
+        Space { nets: nets(&specs(yens, tier)), algos: ksp_algos(yens, tier), extra_nets, extra_algos, trunk_nets, trunk_algos }
     }
     fn main_len(&self) -> u64 {
         (self.nets.len() * self.algos.len()) as u64
     }
     fn len(&self) -> u64 {
-        self.main_len() + (self.extra_nets.len() * self.extra_algos.len()) as u64
+        self.main_len() + (self.extra_nets.len() * self.extra_algos.len()) as u64 + (self.trunk_nets.len() * self.trunk_algos.len()) as u64
     }
     fn case(&self, i: u64) -> Case {
+        let extra_len = (self.extra_nets.len() * self.extra_algos.len()) as u64;
+        if i >= self.main_len() + extra_len {
+            let j = (i - self.main_len() - extra_len) as usize;
+            let net = self.trunk_nets[j / self.trunk_algos.len()].clone();
+            let a = &self.trunk_algos[j % self.trunk_algos.len()];
+            return Case { net, algo: a.0.clone(), query_k: a.1, speed_world: false };
+        }
         if i >= self.main_len() {
             let j = (i - self.main_len()) as usize;
             let net = self.extra_nets[j / self.extra_algos.len()].clone();
